@@ -226,3 +226,41 @@ namespace Acra.Model.Golay
 def onesincodeOld (code size : Nat) : Nat :=
   (List.range size).foldl (fun ret t => if (code >>> t) &&& 1 ≠ 0 then ret + 1 else ret) 0
 end Acra.Model.Golay
+
+/-! ### the iteration cursor
+
+  IENAM/Q/D/N, NPD, ParserAlignedPacket, ARINC429/MILSTD1553/UART/PCMDataPacket and MPEGTS are their own iterators:
+  `__iter__` sets `self._index = 0` and returns `self`; `next()` (`__next__`) returns `elements[_index]` and advances,
+  or raises `StopIteration` once `_index >= len(elements)`.  `_index` is created by the first `__iter__` (NOT by the
+  constructor), is never touched by `unpack` or by assigning the list, and is shared by every loop over the object —
+  among them the `for x in self` inside `pack` of IENAM, IENAQ, MILSTD1553DataPacket, UARTDataPacket and MPEGTS.
+  So a direct call of the public method `next()` shows it: `AttributeError` on an object never iterated, `StopIteration`
+  after any complete loop (or a successful `pack` of those five), and after a later `unpack` whatever the stale cursor
+  happens to select. -/
+namespace Acra.Model.Cursor
+
+/-- `_index`: `none` = the attribute does not exist yet -/
+abbrev Cursor := Option Nat
+
+/-- `__iter__`: `self._index = 0` -/
+def start (_ : Cursor) : Cursor := some 0
+
+/-- `next()` on a container that currently holds `n` elements: the position to return (and the advanced cursor),
+    `StopIteration` at or past the end (cursor unchanged), `AttributeError` when `_index` was never created -/
+def next (c : Cursor) (n : Nat) : Cursor × R Nat :=
+  match c with
+  | none => (none, .error .attribute)
+  | some k => if k < n then (some (k + 1), .ok k) else (some k, .error .stopIteration)
+
+/-- `for x in obj: pass` (also the loop inside the five `pack`s): `__iter__`, then `next` until `StopIteration` -/
+def loop (n : Nat) : Cursor := some n
+
+/-- the positions a loop visits, by running `next` with fuel -/
+def run : Nat → Cursor → Nat → List Nat × Cursor
+  | 0, c, _ => ([], c)
+  | fuel + 1, c, n =>
+    match next c n with
+    | (c', .ok k) => let (ks, c'') := run fuel c' n; (k :: ks, c'')
+    | (c', .error _) => ([], c')
+
+end Acra.Model.Cursor
